@@ -256,6 +256,10 @@ PROPS["C04"]["e2"] += [E("tree_walker", "p_walker", "lemma_tree_walker"), E("mai
 PROPS["C12"]["e2"] += [E("tree_walker", "p_walker", "lemma_tree_walker"), E("main", "p_main", "lemma_main"), E("driver_copy", "p_drivers", "lemma_driver_copy")]
 PROPS["C14"]["e2"] += [E("tree_walker", "p_walker", "lemma_tree_walker")]
 PROPS["C20"]["e2"] += [E("driver_copy", "p_drivers", "lemma_driver_copy")]
+for _p in ("C01", "C02"):
+    PROPS[_p]["e2"] += [E("driver_copy", "p_drivers", "lemma_driver_copy")]
+for _p in ("C07", "C16"):
+    PROPS[_p]["e2"] += [E("load_driver", "p_drivers", "lemma_load_driver")]
 
 PROPS["C11"]["e2"] += [E("copy_file", "p_copy", "lemma_copy_file")]
 
@@ -290,7 +294,7 @@ PROPS["C03"]["e2"] += [E("is_same_file", "p_libfs", "lemma_is_same_file")]
 # option wiring: each option-driven property also depends on its option reaching the library configuration
 for _p in ("C02", "C06", "C08", "C09", "C10", "C13", "C15", "C17", "C18", "C20"):
     PROPS[_p]["e2"] += [E("config_from_opts", "p_main", "lemma_config_from_opts")]
-PROPS["C07"]["e2"] += [E("block_job", "p_parblock", "lemma_block_job")]
+PROPS["C07"]["e2"] += [E("block_job", "p_parblock", "lemma_block_job"), E("queue_file_blocks", "p_parblock", "lemma_queue_file_blocks")]
 PROPS["C18"]["e2"] += [E("block_job", "p_parblock", "lemma_block_job")]
 # the kernel-copy wrappers and the extent map are part of what "byte-identical" (C01) and "holes stay holes" (C11) rest on
 PROPS["C01"]["e2"] += [E("cfr", "p_libfs", "lemma_cfr"), E("map_extents", "p_libfs", "lemma_map_extents"), E("merge_extents", "p_libfs", "lemma_merge_extents")]
